@@ -87,15 +87,16 @@ func (e *Emitter) Emit(ev J) {
 func (e *Emitter) Flush() { e.w.Flush() }
 
 type tracer struct {
-	em      *Emitter
-	world   *World
-	gate    func(site string)
-	mute    bool
-	shadow  *[]string // event summary for listener-consistency checks
-	primary bool
-	nesting *bool // true while a nested run on the same engine value is in progress: its events are not this run's
-	maxc    uint64
-	over    *bool // the run went two cycles beyond its budget: that is flagged by then, the rest of it is not recorded
+	em            *Emitter
+	world         *World
+	gate          func(site string)
+	mute          bool
+	shadow        *[]string // event summary for listener-consistency checks
+	primary       bool
+	nesting       *bool // true while a nested run on the same engine value is in progress: its events are not this run's
+	maxc          uint64
+	execAnnounced *bool // an execution was announced in the current cycle
+	over          *bool // the run went two cycles beyond its budget: that is flagged by then, the rest of it is not recorded
 }
 
 type nestFact struct{ X int64 }
@@ -170,6 +171,16 @@ func shadowRun(c *Case, cc *CallCfg, watchdog time.Duration) (facts J, class str
 			return w.Snapshot(), "panic", true
 		}
 		cls, _ := classify(r.err, nil)
+		if cls == "other" {
+			var names []string
+			for n := range kb.RuleEntries {
+				names = append(names, n)
+			}
+			cls, _ = classifyLoosely(r.err, names, false)
+		}
+		if cls == "acterr" || cls == "evalerr" {
+			cls = "ruleerr" // (without a listener there is no telling which of the two: the monitor compares coarsely)
+		}
 		return w.Snapshot(), cls, true
 	case <-time.After(watchdog):
 		return w.Snapshot(), "hang", true
@@ -310,6 +321,9 @@ func (l *tracer) BeginCycle(ctx context.Context, c uint64) {
 	if !l.primary {
 		return
 	}
+	if l.execAnnounced != nil {
+		*l.execAnnounced = false
+	}
 	l.em.Emit(J{"ev": "cycle", "n": c, "facts": l.world.Snapshot()})
 	l.gate("cycle")
 }
@@ -339,6 +353,9 @@ func (l *tracer) ExecuteRuleEntry(ctx context.Context, c uint64, e *ast.RuleEntr
 	l.note(fmt.Sprintf("x%d:%s", c, e.RuleName))
 	if !l.primary {
 		return
+	}
+	if l.execAnnounced != nil {
+		*l.execAnnounced = true
 	}
 	l.gate("exec") // a cancellation here precedes the announcement: the engine then refuses to run the rule
 	l.em.Emit(J{"ev": "exec", "n": c, "r": e.RuleName, "del": e.Deleted})
@@ -375,6 +392,28 @@ func classify(err error, ctx context.Context) (class string, rule string) {
 	}
 	if m := reCtxEval.FindStringSubmatch(msg); m != nil {
 		return "ctxeval", m[1]
+	}
+	return "other", ""
+}
+
+// classifyLoosely is the fall-back for an error whose text is none of the known forms (the properties fix what an error says,
+// not its wording): an error that names a rule of the program is an action error when the engine had announced an execution
+// in the current cycle and an evaluation error otherwise; an error that names no rule and speaks of cycles is the cycle limit.
+func classifyLoosely(err error, names []string, execAnnounced bool) (class string, rule string) {
+	msg := err.Error()
+	best := ""
+	for _, n := range names {
+		if len(n) > len(best) && regexp.MustCompile(`(^|[^A-Za-z0-9_])`+regexp.QuoteMeta(n)+`([^A-Za-z0-9_]|$)`).MatchString(msg) {
+			best = n
+		}
+	}
+	switch {
+	case best != "" && execAnnounced:
+		return "acterr", best
+	case best != "":
+		return "evalerr", best
+	case strings.Contains(strings.ToLower(msg), "cycle"):
+		return "max", ""
 	}
 	return "other", ""
 }
@@ -586,6 +625,7 @@ func runCall(c *Case, ci int, kb *ast.KnowledgeBase, em *Emitter, watchdog time.
 		}
 	}
 	over := false
+	execAnnounced := false
 	w.F.hook = func(ev J) {
 		if !over {
 			em.Emit(ev)
@@ -624,12 +664,12 @@ func runCall(c *Case, ci int, kb *ast.KnowledgeBase, em *Emitter, watchdog time.
 		// ONE engine value serves every goroutine of a concurrent run (its listener routes the callbacks by a value in the context)
 		eng = c.shared.eng
 		shadows = make([][]string, 1)
-		key := c.shared.register(&tracer{em: em, world: w, gate: gate, shadow: &shadows[0], primary: true, nesting: &nesting, maxc: cc.Max, over: &over})
+		key := c.shared.register(&tracer{em: em, world: w, gate: gate, shadow: &shadows[0], primary: true, nesting: &nesting, maxc: cc.Max, over: &over, execAnnounced: &execAnnounced})
 		defer c.shared.unregister(key)
 		ctx = context.WithValue(ctx, sharedKey{}, key)
 	} else {
 		for i := 0; i < c.Listener; i++ {
-			eng.Listeners = append(eng.Listeners, &tracer{em: em, world: w, gate: gate, shadow: &shadows[i], primary: i == 0, nesting: &nesting, maxc: cc.Max, over: &over})
+			eng.Listeners = append(eng.Listeners, &tracer{em: em, world: w, gate: gate, shadow: &shadows[i], primary: i == 0, nesting: &nesting, maxc: cc.Max, over: &over, execAnnounced: &execAnnounced})
 		}
 	}
 	type result struct {
@@ -682,6 +722,13 @@ func runCall(c *Case, ci int, kb *ast.KnowledgeBase, em *Emitter, watchdog time.
 		ret["what"] = fmt.Sprint(r.pan)
 	default:
 		cls, rule := classify(r.err, ctx)
+		if cls == "other" && cc.Mode == "exec" {
+			var names []string
+			for n := range kb.RuleEntries {
+				names = append(names, n)
+			}
+			cls, rule = classifyLoosely(r.err, names, execAnnounced)
+		}
 		ret["err"] = cls
 		ret["rule"] = rule
 		if r.err != nil {
